@@ -126,7 +126,43 @@ def weightOp (args : List String) : Option String :=
     let table := names.zip vals
     pure (fList (fOpt fF) (formulas.map (molecularWeight table amu)))) args
 
+/-- one operation of a cache session: `0 i` setPath | `1 i m` addFile | `2 i m` removeFile | `3 m` register | `4 m` load |
+    `5` clear | `6` ask -/
+def cacheOpP : P CacheOp := do
+  let tag ← nat
+  match tag with
+  | 0 => do
+    let i ← nat
+    pure (.setPath i)
+  | 1 => do
+    let i ← nat
+    let m ← strTok
+    pure (.addFile i m)
+  | 2 => do
+    let i ← nat
+    let m ← strTok
+    pure (.removeFile i m)
+  | 3 => do
+    let m ← strTok
+    pure (.register m)
+  | 4 => do
+    let m ← strTok
+    pure (.load m)
+  | 5 => pure .clear
+  | 6 => pure .ask
+  | _ => failure
+
+/-- `c10.session nDirs ops` → the molecules `find_list_of_molecules()` returns after the history `ops`, starting from
+    `nDirs` empty directories, no path set, nothing in memory -/
+def sessionOp (args : List String) : Option String :=
+  run (do
+    let nd ← nat
+    let ops ← listOf cacheOpP
+    let s0 : CacheState := { path := none, dirs := List.replicate nd [], loaded := [] }
+    pure (fList id (s0.run ops).molecules)) args
+
 def ops : List Op :=
+  [("c10.session", sessionOp)] ++
   [("c10.gas", gasOp), ("c10.gasauto", gasAutoOp), ("c10.mix", mixOp), ("c10.chem", chemOp), ("c10.split", splitOp),
    ("c10.lookup", lookupOp), ("c10.rows", rowsOp), ("c10.weight", weightOp)]
 
